@@ -58,6 +58,34 @@ def load_known_findings() -> list[dict]:
     return [e for e in data.get("findings", []) if e.get("status", "open") == "open"]
 
 
+# --------------------------------------------------------------------------- ledger of inputs known to fail
+# A known finding is a *condition* (call site, input/output shape).  A condition alone would also excuse a new defect
+# that happens to fail on an input of the same shape, so every (finding, input) pair that fails on the tree on which the
+# findings were recorded is listed in known_inputs/<PROP>.<tier>.txt (12 hex digits of sha1(finding key | input key)).
+# On the registered universe (VERIF_SEED=0, PYTHONHASHSEED=0) a failure is attributed to a finding only if its condition
+# holds AND the pair is listed; an unlisted pair is reported as a violation.  The files are written only by
+# `VERIF_RECORD=1 ./check <id> --tier <tier>` (tools/record_known_inputs.sh), never by a registered command.
+LEDGER_DIR = ROOT / "known_inputs"
+RECORDING = os.environ.get("VERIF_RECORD") == "1"
+_ledger_cache: dict = {}
+
+
+def ledger_hash(finding_key: str, input_key: str) -> str:
+    return hashlib.sha1(f"{finding_key}|{input_key}".encode()).hexdigest()[:12]
+
+
+def registered_universe() -> bool:
+    return seed() == 0 and os.environ.get("PYTHONHASHSEED", "") == "0"
+
+
+def load_ledger(prop: str):
+    """Union of the recorded tiers, or None if nothing was recorded for this property."""
+    if prop not in _ledger_cache:
+        files = sorted(LEDGER_DIR.glob(f"{prop}.*.txt"))
+        _ledger_cache[prop] = {h for f in files for h in f.read_text().split()} if files else None
+    return _ledger_cache[prop]
+
+
 def match_known(prop: str, keys: Iterable[str]) -> dict | None:
     """Return the known-finding entry matching one of *keys* for property *prop* (or None)."""
     keys = set(keys)
@@ -113,6 +141,7 @@ class Report:
     harness_errors: list[str] = field(default_factory=list)
     t0: float = field(default_factory=time.time)
     counters: dict = field(default_factory=dict)
+    recorded: set = field(default_factory=set)
 
     def count(self, key: str, n: int = 1) -> None:
         self.counters[key] = self.counters.get(key, 0) + n
@@ -124,6 +153,15 @@ class Report:
     def add_violation(self, v: Violation) -> None:
         e = match_known(v.prop, v.keys)
         if e is not None:
+            h = ledger_hash(e["key"], v.keys[0])
+            ledger = load_ledger(v.prop)
+            if RECORDING:
+                self.recorded.add(h)
+            elif ledger is not None and registered_universe() and h not in ledger:
+                v.what += f" [the condition of known finding {e['key']} holds, but this input is not among the inputs recorded as failing when the finding was recorded (known_inputs/)]"
+                self.count("finding_condition_but_unlisted_input")
+                self.violations.append(v)
+                return
             self.known.append((e, v))
         else:
             self.violations.append(v)
@@ -132,6 +170,15 @@ class Report:
     def finish(self) -> int:
         wall = time.time() - self.t0
         EVIDENCE_DIR.mkdir(parents=True, exist_ok=True)
+        if RECORDING:
+            if not registered_universe() or self.violations or self.harness_errors:
+                print("RECORD refused: needs VERIF_SEED=0, PYTHONHASHSEED=0 and a run without violations or harness errors")
+            else:
+                LEDGER_DIR.mkdir(exist_ok=True)
+                f = LEDGER_DIR / f"{self.prop}.{tier()}.txt"
+                old = set(f.read_text().split()) if f.exists() and os.environ.get("VERIF_RECORD_MERGE") == "1" else set()
+                f.write_text("\n".join(sorted(old | self.recorded)) + "\n")
+                print(f"RECORDED {len(old | self.recorded)} (finding, input) pairs in {f}")
         seen_known = {}
         for e, v in self.known:
             seen_known.setdefault(e["key"], (e, v, 0))
@@ -165,6 +212,7 @@ class Report:
             "solver_seconds": round(self.solver_s, 3),
             "counters": self.counters,
             "known_findings_matched": sorted(seen_known),
+            "known_finding_attribution": ("condition and listed input (known_inputs/)" if load_ledger(self.prop) is not None and registered_universe() else "condition only"),
             "harness_errors": self.harness_errors[:10],
         }
         coverage.update(self.extra)
